@@ -22,6 +22,10 @@ static int c03_coef(unsigned long long seed, int kind, int prec, int ci, int by,
   case 3: return (int)(h % 255ULL) - 127;
   case 4: return k == 63 ? ((h & 1ULL) ? 1 : -3) : (k == 0 ? (int)(h % 9ULL) - 4 : 0);
   case 5: return 0;
+  case 8: /* flat, with one isolated block every 61 block rows (about 11000 blocks in a 182-block-wide image): the adaptive statistics of the
+             arithmetic coder reach the small-Qe end of the probability table before a less probable symbol arrives */
+    if (by % 61 == 60 && bx == 177) return k == 0 ? 9 : (int)((h >> 4) % 7ULL) - 3;
+    return k == 0 ? 5 : 0;
   case 7: /* every AC coefficient stays nonzero at every point transform: refinement scans are all correction bits */
     return k == 0 ? (int)(h % 9ULL) - 4 : ((h & 1ULL) ? 1 : -1) * (8 + (int)((h >> 3) % 100ULL));
   default: { /* mostly-flat with rare isolated blocks: long EOB runs broken at odd places */
